@@ -62,9 +62,32 @@ Fixpoint take_n {A : Type} (n : nat) (l : list A) : option (list A * list A) :=
            end
   end.
 
+(* ------------------------------------------------- analyzer statistics *)
+(* A statistic read from the analyzer (summary::az), as the bit patterns of its
+   components: a fitness_t (mean / standard deviation / variance of the
+   fitness) or a one-component double (mean age). *)
+Definition stat := list Z.
+
+(* the floating-point predicates the strategies apply to those statistics *)
+Record stat_ops := mkOps {
+  st_almost_equal : stat -> stat -> bool;   (* almost_equal(fitness_t, fitness_t) *)
+  st_small : stat -> bool;                  (* issmall(fitness_t) *)
+  st_gt : stat -> Z -> bool                 (* double > unsigned *)
+}.
+
+(* the fields of the analyzer that basic_alps_es::after_generation and
+   std_es::stop_condition read, per layer (group) where indexed *)
+Record stats := mkStats {
+  fit_mean : list stat;      (* az.fit_dist(l).mean() *)
+  fit_sd : list stat;        (* az.fit_dist(l).standard_deviation() *)
+  age_mean : list stat;      (* az.age_dist(l).mean() *)
+  fit_var : stat             (* az.fit_dist().variance() *)
+}.
+
 Section Evo.
 Variable F : Type.
 Variable flt : F -> F -> bool.          (* fitness_t::operator< *)
+Variable ops : stat_ops.
 
 Record ind := mkInd { uid : Z; age : Z; fit : F }.
 Record layer := mkLayer { members : list ind; allowed : nat }.
@@ -441,13 +464,29 @@ Definition replace (e : env) (s : state) (parents : list coord) (o : ind) (ds : 
   else match ds with [] => repl_tournament e s parents o | _ => None end.
 
 (* ------------------------------------------------- after_generation *)
-(* the loop  for (l = layers - 1; l; --l) if (...) remove_layer(l)  :
-   [rs] lists the removed layers, in the order of removal *)
-Fixpoint remove_layers (p : population) (bound : nat) (rs : list nat) : option population :=
-  match rs with
-  | [] => Some p
-  | l :: r => if (0 <? l)%nat && (l <? bound)%nat && (l <? length p)%nat
-              then remove_layers (remove_nth l p) l r else None
+(* the loop  for (l = layers - 1; l; --l)
+               if (almost_equal(az.fit_dist(l - 1).mean(), az.fit_dist(l).mean())) remove_layer(l);
+   [l] is the loop variable; the statistics keep the indices of the
+   generation's start *)
+Fixpoint removal_loop (means : list stat) (p : population) (l : nat) : option population :=
+  match l with
+  | O => Some p
+  | S k =>
+      match nth_error means k, nth_error means l with
+      | Some a, Some b =>
+          removal_loop means (if st_almost_equal ops a b then remove_nth l p else p) k
+      | _, _ => None
+      end
+  end.
+
+(* issmall(az.fit_dist(l).standard_deviation()) for l = from .. from+n-1 *)
+Fixpoint small_flags (sds : list stat) (from n : nat) : option (list bool) :=
+  match n with
+  | O => Some []
+  | S k => match nth_error sds from, small_flags sds (S from) k with
+           | Some sd, Some r => Some (st_small ops sd :: r)
+           | _, _ => None
+           end
   end.
 
 (* the loop over l = 1 .. layers-1 calling set_allowed; [bs] tells for each
@@ -476,51 +515,65 @@ Fixpoint move_up (e : env) (p : population) (xs : list ind) (ds : list nat)
               end
   end.
 
-Inductive ag_kind :=
-| AgNone
-| AgAdd (news : list ind)                        (* population::add_layer *)
-| AgRestart (ds : list nat) (news : list ind).   (* try_move_up_layer(0); init_layer(0) *)
-
-Record aftergen := mkAg { ag_removed : list nat; ag_small : list bool; ag_kind_of : ag_kind }.
+(* what the end of a generation is given: the analyzer of the generation's
+   start, the values of the random::sup calls of try_move_up_layer, and the
+   individuals created by add_layer / init_layer *)
+Record aftergen := mkAg { ag_stats : stats; ag_draws : list nat; ag_news : list ind }.
 
 Definition fresh (xs : list ind) : bool := forallb (fun x => age x =? 0) xs.
+
+(* layers < env.layers || az.age_dist(layers - 1).mean() > env.alps.max_age(layers) *)
+Definition add_layer_decision (e : env) (st : stats) (layers : nat) : option bool :=
+  if (layers <? e_layers e)%nat then Some true
+  else match nth_error (age_mean st) (layers - 1) with
+       | Some m => Some (st_gt ops m (max_age e layers))
+       | None => None
+       end.
 
 (* basic_alps_es::after_generation *)
 Definition after_generation_alps (e : env) (s : state) (a : aftergen) : option population :=
   let p0 := inc_age (pop s) in
-  match remove_layers p0 (length p0) (ag_removed a) with
+  match removal_loop (fit_mean (ag_stats a)) p0 (length p0 - 1) with
   | None => None
   | Some p1 =>
-      if negb (S (length (ag_small a)) =? length p1)%nat then None else
-      let p2 := resize_layers e p1 1 (ag_small a) in
-      let g := gen (sm s) in
-      if (0 <? g) && (0 <? e_age_gap e) && (g mod e_age_gap e =? 0) then
-        match ag_kind_of a with
-        | AgNone => None
-        | AgAdd news =>
-            if (length news =? e_individuals e)%nat && fresh news
-            then Some (mkLayer news (e_individuals e) :: p2) else None
-        | AgRestart ds news =>
-            if (length p2 <? e_layers e)%nat then None     (* layers < env.layers: add_layer is mandatory *)
-            else
-              match p2 with
-              | [] => None
-              | l0 :: _ =>
-                  let moved := if (1 <? length p2)%nat then move_up e p2 (members l0) ds else Some (p2, ds) in
-                  match moved with
-                  | None => None
-                  | Some (p3, _) =>
-                      match p3 with
-                      | [] => None
-                      | l0' :: rest =>
-                          if (length news =? allowed l0')%nat && fresh news
-                          then Some (mkLayer news (allowed l0') :: rest) else None
-                      end
-                  end
-              end
-        end
-      else match ag_kind_of a with AgNone => if 0 <? e_age_gap e then Some p2 else None | _ => None end
+      match small_flags (fit_sd (ag_stats a)) 1 (length p1 - 1) with
+      | None => None
+      | Some bs =>
+          let p2 := resize_layers e p1 1 bs in
+          let g := gen (sm s) in
+          if negb (0 <? e_age_gap e) then None
+          else if (0 <? g) && (g mod e_age_gap e =? 0) then
+            match add_layer_decision e (ag_stats a) (length p2) with
+            | None => None
+            | Some true =>                                          (* population::add_layer *)
+                if (length (ag_news a) =? e_individuals e)%nat && fresh (ag_news a)
+                then Some (mkLayer (ag_news a) (e_individuals e) :: p2) else None
+            | Some false =>                                         (* try_move_up_layer(0); init_layer(0) *)
+                match p2 with
+                | [] => None
+                | l0 :: _ =>
+                    let moved := if (1 <? length p2)%nat then move_up e p2 (members l0) (ag_draws a)
+                                 else Some (p2, ag_draws a) in
+                    match moved with
+                    | None => None
+                    | Some (p3, _) =>
+                        match p3 with
+                        | [] => None
+                        | l0' :: rest =>
+                            if (length (ag_news a) =? allowed l0')%nat && fresh (ag_news a)
+                            then Some (mkLayer (ag_news a) (allowed l0') :: rest) else None
+                        end
+                    end
+                end
+            end
+          else Some p2
+      end
   end.
+
+(* std_es::stop_condition:
+   sum->gen - sum->last_imp > *env.max_stuck_time && issmall(sum->az.fit_dist().variance()) *)
+Definition std_stop_condition (max_stuck : Z) (s : summary) (st : stats) : bool :=
+  (max_stuck <? gen s - last_imp s) && st_small ops (fit_var st).
 
 (* ---------------------------------------------------------- events *)
 Inductive event :=
@@ -567,11 +620,7 @@ Definition step_ok (e : env) (s : state) (ev : event) : option state :=
         | Some p => Some (mkState p (next_gen (sm s)))
         | None => None
         end
-      else
-        match ag_removed a, ag_small a, ag_kind_of a with
-        | [], [], AgNone => Some (mkState (pop s) (next_gen (sm s)))
-        | _, _, _ => None
-        end
+      else Some (mkState (pop s) (next_gen (sm s)))      (* evolution_strategy::after_generation: nothing *)
   | EShake bf fits =>
       match refit (pop s) fits with
       | Some p => let b := best_sol (sm s) in
